@@ -30,7 +30,10 @@ RULE_ADDED = (
               'windows ending 3 h ago / starting in 3 h; a third of the shards under python -O; '
               'every named field of the reported quote compared; re-validation and element '
               'replacement on the same object; extra / repeated targets; an attacker chain embedding '
-              'its own root; padding-like ends of the QE auth data ')
+              'its own root; padding-like ends of the QE auth data '
+              ' '
+              'Round 8: one key in eight has a coordinate beginning or ending like an encoding '
+              'marker (00/02/03/04). ')
 RULE = RULE + " " + RULE_ADDED.strip()
 ASSUMPTIONS = [
     "oracle: pv/oracle/certv2.py; X.509 parsing itself is shared (cryptography), signature "
